@@ -55,7 +55,7 @@ impl Interpreter {
 
                 self.state.clone()
             }
-            ScriptBit::Coinbase(_) => todo!(),
+            ScriptBit::Coinbase(_) => return Err(InterpreterError::InvalidStackOperation("a coinbase script cannot be executed")),
         })
     }
 
